@@ -21,7 +21,7 @@ FLAGMAP = {
     "C13": ["CloneCount", "SrcDropped", "SrcModified"],
     "C15": ["Leak"],
     "C17": ["Abort", "Panic"],
-    "C19": ["RefIdentity", "SrcModified", "SrcDropped"],
+    "C19": ["RefIdentity", "SrcModified", "SrcDropped", "CloneStart"],
 }
 
 ALL_SPECS = ("TraceProps", "TraceHB", "TraceCounter", "TraceTicket")
@@ -288,13 +288,16 @@ PLANS = {
                 extra_flags={"comp": ["NoDup", "NoLoss", "Index", "Hang"]}),
     "C13": dict(e1=[], inv=[], bundles=["twin"], flags=["Differs", "CloneCount", "SrcDropped", "SrcModified"]),
     "C14": dict(e1=[], inv=[], bundles=["lowlevel"], flags=["OwnTwice", "NoDup", "OwnGarbage", "Abort"], static=True),
-    "C15": dict(e1=["counter_own_vec", "counter_own_arr"], inv=["Inv_OwnEnd"], bundles=["core"], only=lambda f: f["consuming"]),
+    # of the panic bundle only the runs in which the wrapped iterator panics (what the machinery had buffered must be
+    # released); a panicking destructor is outside the histories C15 quantifies over
+    "C15": dict(e1=["counter_own_vec", "counter_own_arr"], inv=["Inv_OwnEnd"], bundles=["core", "panic"],
+                only=lambda f: f["consuming"] and f["suite"] not in ("panic_drop", "panic_closure", "panic_clone")),
     "C16": dict(e1=[], inv=[], bundles=["boundary"], flags=["Boundary", "BoundaryAfterWrap"]),
     "C17": dict(e1=[], inv=[], bundles=["dual"], flags=["Differs", "Abort", "Panic"]),
     "C18": dict(e1=["ticket_panic1", "ticket_panic2"], inv=["Inv_C01", "Inv_C07_Mutex"], bundles=["panic"], deadlock=True,
                 flags=["Hang", "NoDup", "OwnTwice", "OwnNever", "OwnGarbage", "Mutex"]),
     "C19": dict(e1=["counter_multi"], inv=["Inv_C19", "Inv_C01", "Inv_C02", "Inv_C04", "Inv_C10", "Inv_C11"], bundles=["multi", "core"],
-                flags=["RefIdentity", "SrcModified", "SrcDropped"],
+                flags=["RefIdentity", "SrcModified", "SrcDropped", "CloneStart"],
                 extra_flags={"multi": ["NoDup", "NoLoss", "Index", "Value", "Prefix", "NoFalseEnd", "ThreadOrder", "RealTime", "SeqWrong",
                                        "LenWrong", "EndSticks", "SkipSticks", "ChunkLen", "ChunkShort", "OutOfRange"]},
                 only=lambda f: not f["consuming"] and f["fam"] == "counter"),
